@@ -50,6 +50,7 @@ type Contract struct {
 	Vars       []string // lemma: "name type" universally quantified variables
 	Calls      []string // for documentation
 	Observes   []string // expressions whose values counterexamples report
+	DeadReturnCount int // number of return sites that are legitimately unreachable under the precondition (defensive dead code)
 }
 
 type RegionSpec struct {
@@ -62,7 +63,7 @@ type RegionSpec struct {
 
 var clauseKeywords = map[string]bool{"func": true, "requires": true, "ensures": true, "modifies": true, "loop": true,
 	"pure": true, "trusted": true, "inline": true, "nosafety": true, "props": true, "assume": true, "region": true,
-	"from": true, "to": true, "ghost": true, "lemma": true, "vars": true, "safetyonly": true, "field": true, "monitor": true, "end": true, "observe": true}
+	"from": true, "to": true, "ghost": true, "lemma": true, "vars": true, "safetyonly": true, "field": true, "monitor": true, "end": true, "observe": true, "deadreturn": true}
 
 type rawLine struct {
 	text string
@@ -213,6 +214,12 @@ func ParseContractFile(path string) ([]*Contract, []*Decl, error) {
 			cur.Props = append(cur.Props, fields[1:]...)
 		case "assume":
 			cur.Assumes = append(cur.Assumes, rest)
+		case "deadreturn":
+			n, err := strconv.Atoi(strings.TrimSpace(rest))
+			if err != nil {
+				return nil, nil, fmt.Errorf("%s:%d: deadreturn <count>", path, rl.line)
+			}
+			cur.DeadReturnCount = n
 		case "observe":
 			cur.Observes = append(cur.Observes, rest)
 		case "vars":
